@@ -244,6 +244,9 @@ pub fn kinds_plus() -> Vec<Item> {
         gen::u(65535),
         gen::u(65536),
         gen::t("a/b"),
+        // an opaque value is not the crate's map: what it holds (even a repeated key) is kept
+        gen::map(vec![(gen::t("a"), gen::u(1)), (gen::t("a"), gen::u(2))]),
+        gen::arr(vec![gen::map(vec![(gen::u(1), gen::u(1)), (gen::u(1), gen::u(1))])]),
     ]);
     k
 }
